@@ -342,6 +342,17 @@ fn name_of(n: u64) -> String {
     format!("n{n}")
 }
 
+/// The name as `with_name` gets it: consecutive spawns alternate between the two spellings the
+/// API accepts (an owned `String` and a `&'static str`), so that one name meets itself in both.
+fn name_arg(n: u64) -> std::borrow::Cow<'static, str> {
+    static SPELLING: std::sync::atomic::AtomicU64 = std::sync::atomic::AtomicU64::new(0);
+    if SPELLING.fetch_add(1, std::sync::atomic::Ordering::Relaxed) % 2 == 0 {
+        std::borrow::Cow::Owned(name_of(n))
+    } else {
+        std::borrow::Cow::Borrowed(Box::leak(name_of(n).into_boxed_str()))
+    }
+}
+
 trait Wrap<const I: usize> {
     fn wrap(mb: Mailbox<TActor<I>>) -> AnyMb;
 }
@@ -422,7 +433,7 @@ where
         .spawn(move || TActor::<I> { sh: sh2, world: w2, flags }, ())
         .with_capacity(NonZeroUsize::new(cap as usize).unwrap());
     if name != 0 {
-        b = b.with_name(name_of(name));
+        b = b.with_name(name_arg(name));
     }
     if let Some(s) = sup {
         b = each_mb!(s, m => b.with_supervisor(m));
